@@ -1525,6 +1525,17 @@ class Protocol(utils.EventEmitter):
 
     def on_l2cap_channel_close(self) -> None:
         logger.debug(color('<<< L2CAP channel close', 'magenta'))
+
+        # The responses to the pending commands will never come: release the callers
+        for transaction_label, transaction_result in enumerate(
+            self.transaction_results
+        ):
+            if transaction_result is not None:
+                if not transaction_result.done():
+                    transaction_result.cancel('AVDTP signaling channel closed')
+                self.transaction_results[transaction_label] = None
+                self.transaction_semaphore.release()
+
         self.emit(self.EVENT_CLOSE)
 
     def send_message(self, transaction_label: int, message: Message) -> None:
